@@ -53,24 +53,24 @@ FLAVOURS = {
 
 # which flavours a property's tiers run in
 PROP_FLAVOURS = {
-    "C01": {"quick": ["asm"], "thorough": ["asm", "plain"]},
-    "C02": {"quick": ["asm"], "thorough": ["asm", "plain"]},
-    "C03": {"quick": ["asm"], "thorough": ["asm", "plain"]},
+    "C01": {"quick": ["asm", "plain:4"], "thorough": ["asm", "plain"]},
+    "C02": {"quick": ["asm", "plain:4"], "thorough": ["asm", "plain"]},
+    "C03": {"quick": ["asm", "plain"], "thorough": ["asm", "plain"]},
     "C04": {"quick": ["asm", "intr", "pure", "nostd", "max_sse41", "portable_only"],
             "thorough": ["asm", "intr", "pure", "nostd", "max_sse41", "portable_only", "plain", "stock", "stock_no_avx512", "stock_no_avx2", "stock_no_sse41", "stock_no_sse2"]},
     "C05": {"quick": ["asm", "intr", "pure"], "thorough": ["asm", "intr", "pure", "plain"]},
     "C06": {"quick": ["asm"], "thorough": ["asm", "plain"]},
     "C07": {"quick": ["asm"], "thorough": ["asm", "intr", "pure", "plain"]},
     "C08": {"quick": ["asm"], "thorough": ["asm", "intr", "plain"]},
-    "C09": {"quick": ["asm"], "thorough": ["asm", "plain"]},
-    "C10": {"quick": ["asm"], "thorough": ["asm", "plain"]},
-    "C11": {"quick": ["asm"], "thorough": ["asm", "plain"]},
+    "C09": {"quick": ["asm", "plain"], "thorough": ["asm", "plain"]},
+    "C10": {"quick": ["asm", "plain"], "thorough": ["asm", "plain"]},
+    "C11": {"quick": ["asm", "plain:4"], "thorough": ["asm", "plain"]},
     "C12": {"quick": ["asm"], "thorough": ["asm", "plain"]},
     "C13": {"quick": ["asm"], "thorough": ["asm", "plain"]},
-    "C14": {"quick": ["asm"], "thorough": ["asm", "plain"]},
-    "C15": {"quick": ["asm"], "thorough": ["asm", "plain"]},
-    "C16": {"quick": ["asm"], "thorough": ["asm", "plain"]},
-    "C17": {"quick": ["asm"], "thorough": ["asm", "plain"]},
+    "C14": {"quick": ["asm", "plain:4"], "thorough": ["asm", "plain"]},
+    "C15": {"quick": ["asm", "plain"], "thorough": ["asm", "plain"]},
+    "C16": {"quick": ["asm", "plain"], "thorough": ["asm", "plain"]},
+    "C17": {"quick": ["asm", "plain"], "thorough": ["asm", "plain"]},
     "C18": {"quick": ["asm"], "thorough": ["asm", "intr", "plain"]},
 }
 
@@ -305,7 +305,9 @@ def plan_jobs(prop, tier, seed, flavours, nshards=None, extra=None):
     ns = nshards or NCPU
     timeout = 1500 if tier == "quick" else 6 * 3600
     for fl in flavours:
-        for i in range(ns):
+        # "name:k" = only the first k of the ns shards of that flavour (a fraction of its cases: secondary flavours of the quick tier)
+        fl, _, part = fl.partition(":")
+        for i in range(min(ns, int(part)) if part else ns):
             jobs.append(dict(flavour=fl, prop=prop, tier=tier, seed=seed, shard=i, nshards=ns, timeout=timeout,
                              out=os.path.join(WORK, prop, "%s-%s-%d.json" % (tier, fl, i)), extra=list(extra or [])))
     return jobs
@@ -344,7 +346,7 @@ def check(prop, tier, seed):
         return 2
     import extras  # property-specific steps outside the vcheck binary
     flavours = PROP_FLAVOURS[prop][tier]
-    if not build_flavours(flavours):
+    if not build_flavours([f.partition(":")[0] for f in flavours]):
         log("ENGINE-ERROR: harness does not build against the current /repo tree")
         return 2
     pre = extras.before(prop, tier, seed)
@@ -354,7 +356,7 @@ def check(prop, tier, seed):
     jobs = plan_jobs(prop, tier, seed, flavours, nshards=pre.get("nshards"), extra=pre.get("extra_args"))
     results = run_jobs(jobs, workers=pre.get("workers"))
     post = extras.after(prop, tier, seed)
-    reg_viol, reg_n = run_regress(prop, flavours[0])
+    reg_viol, reg_n = run_regress(prop, flavours[0].partition(":")[0])
     post.setdefault("violations", []).extend(reg_viol)
     post.setdefault("coverage", {})["regression_replays"] = reg_n
     ev, violations, engine_errors = merge_results(
